@@ -233,6 +233,11 @@ func runC10(c *Ctx) {
 					}
 				}
 			}
+			if _, listed := allowed[k]; !listed && fn.Parent() != nil {
+				// a clean-up moved into a (deferred) closure of the confirmed function is
+				// still that function's call site
+				k = c.U.RelName(ir.TopLevel(fn)) + "|" + f.String()
+			}
 			if seen[k] {
 				r.Violation("C10.4", "fs-call-twice:"+k, c.pos(call), fmt.Sprintf("%s calls %s more than once: only one such call site was confirmed (a second file would be touched)", c.U.RelName(fn), f.String()))
 				continue
